@@ -171,6 +171,13 @@ pub fn run_case(voc: &concretise::Vocab, case: &Value, dump: Option<&str>) -> Ve
                                    "same": d2 == base, "base_read": g.read_outcome}).to_string());
             }
         }
+        "facets" => {
+            let r = catch_unwind(AssertUnwindSafe(|| crate::facets::run(case)));
+            match r {
+                Ok(ev) => events.extend(ev),
+                Err(p) => events.push(json!({"ev":"harness_error","msg":panic_msg(&*p)}).to_string()),
+            }
+        }
         other => {
             events.push(json!({"ev":"harness_error","msg":format!("unknown driver {other}")}).to_string());
         }
